@@ -214,6 +214,17 @@ class Rule:
         return self
 
 
+def guarded(label, fn, *args):
+    """run one rule function; a missing anchor becomes a fail-closed violation of that rule alone, so the other rules of the property still report"""
+    try:
+        r = fn(*args)
+        return list(r) if isinstance(r, (tuple, list)) else [r]
+    except AnchorError as e:
+        rule = Rule(label, "anchor of this rule not found (fails closed)")
+        rule.violations.append(Violation(label, "anchor", "anchor not found: %s (the construct this rule is anchored in moved or disappeared; the rule fails closed)" % e))
+        return [rule]
+
+
 def anchor_guard(rule, fn):
     """run fn(); an AnchorError becomes a fail-closed violation of the rule"""
     try:
